@@ -147,6 +147,23 @@ def handle : List String → String
     match n.toNat? with
     | some n => hexOfBytes (vintEnc n)
     | none => "bad-op"
+  | ["ops", cap, fh, spec] =>
+    -- a mix of `get_document_bytes` (`g<doc>`) and `iter_raw` (`i<alive bits>`, `iall`) on one reader,
+    -- all through its block cache: statistics, and whether every answer equals the uncached one
+    let parseOp (t : String) : Option ReaderOp :=
+      match t.toList with
+      | 'g' :: r => (String.ofList r).toNat?.map ReaderOp.get
+      | 'i' :: r => if String.ofList r == "all" then some (.iter []) else some (.iter (r.map (· == '1')))
+      | _ => none
+    match cap.toNat?, bytesOfHex fh, (spec.splitOn ";").mapM parseOp with
+    | some cap, some file, some ops =>
+      match openStore file with
+      | some sf =>
+        let r := runOps Compression.none sf (BlockCache.new cap) ops
+        let plain := ops.map (ReaderOp.plain Compression.none sf)
+        s!"{r.2.hits}/{r.2.misses}/{r.2.entries.length}/{showBool (r.1 == plain)}"
+      | none => "err"
+    | _, _, _ => "bad-op"
   | ["frame", lens] =>
     -- the 4-byte header lz4 / zstd blocks start with, for a block of documents of these lengths
     match natList lens with
